@@ -21,7 +21,8 @@ Go code modelled (ledger/blockqueue.go, ledger/tracker.go, ledger/ledger.go):
   accounts DB to genesis (AccountsReset + migrations) and everything is replayed from round 0: the model does the same
   (`recover` empties the tracker store, `openLedger` replays all blocks over genesis).
 
-`confirmed` is a ghost list: the rounds for which waitCommit has returned.
+`confirmed` is a ghost list: the rounds the ledger has acknowledged as durable (WaitForCommit returned, the channel of
+Ledger.Wait closed, LatestCommitted's first component).
 Core Lean only (no Mathlib): the driver links this file.
 -/
 namespace AlgoVerif.Model.Durable
@@ -120,7 +121,8 @@ inductive Ev (Blk : Type) where
   | commitAbort
   /-- postCommit: dbRound := newBase -/
   | commitPost
-  /-- blockQueue.waitCommit(r) returns -/
+  /-- the ledger ACKNOWLEDGES round r as durable: blockQueue.waitCommit(r) returns (Ledger.WaitForCommit), the channel of
+  Ledger.Wait(r) is closed (bulletinDisk, notified from notifyCommit(committed)), or LatestCommitted() = (r, _) -/
   | waitCommit (r : Nat)
   /-- the process dies and the ledger is reopened from the two stores -/
   | crash
